@@ -1,5 +1,5 @@
 (* C03 property theorems: statements + `exact lemma` only. *)
-From CJ Require Import Common.Base C04.Model C03.Model C03.Proofs C03.StatsModel C03.StatsProofs C03.ConnModel C03.ConnProofs C03.FootProofs.
+From CJ Require Import Common.Base C04.Model C03.Model C03.Proofs C03.StatsModel C03.StatsProofs C03.ConnModel C03.ConnProofs C03.FootProofs C03.ReloadModel C03.ReloadProofs.
 Local Open Scope nat_scope.
 
 (* A connection whose bytes (those that arrive before the deadline D) present no valid tag to the
@@ -150,11 +150,35 @@ Proof. exact peer_address_irrelevant. Qed.
 Print Assumptions C03_peer_address_irrelevant.
 
 (* every form in which Go holds an IP address is accepted by getRemoteAsIP *)
+(* ... whatever Zone the TCP / UDP address object carries (a scoped link-local peer, fe80::1%eth0) *)
 Theorem C03_ip_addresses_accepted :
-  forall ip, is_ip ip ->
-    remote_ip (RTcp ip) = Some ip /\ remote_ip (RUdp ip) = Some ip /\ remote_ip (ROther (Some ip)) = Some ip.
+  forall ip zone, is_ip ip ->
+    remote_ip (RTcp ip zone) = Some ip /\ remote_ip (RUdp ip zone) = Some ip /\ remote_ip (ROther (Some ip)) = Some ip.
 Proof. exact ip_addresses_accepted. Qed.
 Print Assumptions C03_ip_addresses_accepted.
+
+(* the zone of the address object is irrelevant to the whole handler: same trace for the zoned and the
+   unzoned address, TCP or UDP, for every wrap (with C03_peer_address_irrelevant: for any two IP peers) *)
+Theorem C03_zone_irrelevant :
+  forall (geo_cc : bytes -> option bytes) (geo_asn : bytes -> option N) (wrap : tid -> bytes -> wres)
+         drain_cap D tracked ts script fin ip z1 z2 phantom,
+    handle geo_cc geo_asn wrap drain_cap (RTcp ip z1) phantom D tracked ts script fin =
+    handle geo_cc geo_asn wrap drain_cap (RTcp ip z2) phantom D tracked ts script fin /\
+    handle geo_cc geo_asn wrap drain_cap (RUdp ip z1) phantom D tracked ts script fin =
+    handle geo_cc geo_asn wrap drain_cap (RTcp ip z2) phantom D tracked ts script fin.
+Proof. intros. split; reflexivity. Qed.
+Print Assumptions C03_zone_irrelevant.
+
+(* refuted: taking the IP from the PRINTED form of the address for every address type (seed C03g) agrees with
+   getRemoteAsIP on every unzoned address and every other net.Addr, and rejects every zoned TCP / UDP peer *)
+Theorem C03_printed_form_refuted :
+  (forall ip, remote_ip_printed (RTcp ip []) = remote_ip (RTcp ip []) /\ remote_ip_printed (RUdp ip []) = remote_ip (RUdp ip [])) /\
+  (forall p, remote_ip_printed (ROther p) = remote_ip (ROther p)) /\
+  (forall ip zone, is_ip ip -> zone <> [] ->
+     remote_ip_printed (RTcp ip zone) = None /\ remote_ip_printed (RUdp ip zone) = None /\
+     remote_ip (RTcp ip zone) = Some ip /\ remote_ip (RUdp ip zone) = Some ip).
+Proof. exact printed_form_refuted. Qed.
+Print Assumptions C03_printed_form_refuted.
 
 (* the boundary: the handler returns at once (its caller closes the connection) exactly when the
    peer address is not an IP address (a pipe in a unit test); no GeoIP answer or failure leads there *)
@@ -270,3 +294,56 @@ Theorem C03_deadline_draw :
     ((5000 <= d < 10000)%N -> exists r, (r < 5000)%N /\ deadline_of_draw r = d).
 Proof. exact deadline_draw. Qed.
 Print Assumptions C03_deadline_draw.
+
+(* ------------------------------------------------------------------ fourth wave, second pass: the station's lifecycle *)
+
+(* The handler's GeoIP collaborator is station state that configuration reloads replace.  INVARIANT and
+   totality: from a station that holds a database (what start-up guarantees, C03_startup_collaborator),
+   NO history of connection events, statistics epochs and reloads - with database files that are not
+   configured, missing, corrupt or good, in any order - panics a handler, and the collaborator is not
+   nil afterwards.  Extends C03_handler_histories_total to histories with reloads. *)
+Theorem C03_histories_with_reloads_total :
+  forall (es : list lev) (st : station), st_geo st <> None ->
+    exists st', lrun false code_guards st es = Ok st' /\ st_geo st' <> None.
+Proof. exact histories_with_reloads_total. Qed.
+Print Assumptions C03_histories_with_reloads_total.
+
+Theorem C03_startup_collaborator :
+  forall conf d, at_startup conf = Some d -> d <> None.
+Proof. exact at_startup_nonnil. Qed.
+Print Assumptions C03_startup_collaborator.
+
+(* what a reload does to the collaborator: a failing geoip.New (exactly: a configured path whose file is
+   missing or corrupt) leaves it alone, every other reload installs what geoip.New returned - never nil *)
+Theorem C03_reload_spec :
+  forall cur conf,
+    (snd (geo_new conf) = EOther <-> exists c, conf = Some c /\ (bad_file (c_asn c) || bad_file (c_cc c)) = true) /\
+    (fst (geo_new conf) = None <-> snd (geo_new conf) = EOther) /\
+    (snd (geo_new conf) = EOther -> on_reload false cur conf = cur) /\
+    (snd (geo_new conf) <> EOther -> on_reload false cur conf = fst (geo_new conf)).
+Proof.
+  intros cur conf. split; [exact (geo_new_fails_iff conf)|]. split; [exact (geo_new_nil_iff conf)|]. exact (on_reload_spec cur conf).
+Qed.
+Print Assumptions C03_reload_spec.
+
+(* the lifecycle machine restricted to histories without reloads is the statistics machine of StatsModel.v *)
+Theorem C03_lifecycle_extends_histories :
+  forall es st, st_geo st <> None ->
+    match lrun false code_guards st (map LEv es) with
+    | Ok st' => run_ops code_guards (st_stats st) (gevs_ops (st_tab st) es) = Ok (st_stats st')
+    | _ => False
+    end.
+Proof. exact lrun_no_reload. Qed.
+Print Assumptions C03_lifecycle_extends_histories.
+
+(* REFUTED: install-on-failure (OnReload without the `return` after a failed geoip.New, seed C03h): ONE reload
+   with a configured database file that is missing or corrupt, then ANY accepted connection - from every
+   station state, whatever the statistics guards - panics the handler; and a bad file is the only way there *)
+Theorem C03_install_on_failure_refuted :
+  (forall st (c : dbconf) cn k nr nt g,
+     (bad_file (c_asn c) || bad_file (c_cc c)) = true ->
+     lrun true g st [LReload (Some c); LEv (GOpen cn k nr nt)] = Panic) /\
+  (forall cur conf, cur <> None -> on_reload true cur conf = None ->
+     exists c, conf = Some c /\ (bad_file (c_asn c) || bad_file (c_cc c)) = true).
+Proof. split; [exact install_on_failure_refuted|exact install_on_failure_needs_bad_file]. Qed.
+Print Assumptions C03_install_on_failure_refuted.
